@@ -60,6 +60,8 @@ type Leaf struct {
 	Shadow   []*Term
 	WDefs    map[*Term]*Term
 	DetObs   []Obs
+	Trail    []int
+	TrailAmb []bool // per decision: a schedule choice (map order, capacity) rather than an input split
 }
 
 type Path struct {
@@ -67,6 +69,7 @@ type Path struct {
 	ss     *SolverSet
 	prefix []int
 	trail  []int
+	trailAmb []bool
 	cursor int
 
 	pc    []*Term
@@ -118,6 +121,9 @@ type Path struct {
 	exactTables bool
 	unwindAssume bool
 	effectArgs  [][]*Term
+	fs          []*fsEntry
+	fsOps       int
+	fsFailed    bool
 	effectFail  []*Term
 	lastPanic   *Term
 	globalCells map[*Value]string
@@ -146,6 +152,9 @@ type Explorer struct {
 	paths     int64
 	maxPaths  int64
 	aborted   bool
+	siteTime  map[string]time.Duration
+	deadline  time.Time // exploration stops here; what was found so far is still processed
+	timedOut  bool
 	keptUnknown int64
 	noSlicing   bool
 	siteCands   map[string]int
@@ -184,6 +193,25 @@ func (ex *Explorer) siteBudgetN(key string, n int) bool {
 	}
 	ex.siteCands[key]++
 	return ex.siteCands[key] <= n
+}
+
+func (ex *Explorer) siteTimeLeft(key string) bool {
+	ex.mu.Lock()
+	defer ex.mu.Unlock()
+	limit := 4 * time.Minute
+	if ex.tier > 0 {
+		limit = 12 * time.Minute
+	}
+	return ex.siteTime[key] < limit
+}
+
+func (ex *Explorer) siteTimeAdd(key string, d time.Duration) {
+	ex.mu.Lock()
+	defer ex.mu.Unlock()
+	if ex.siteTime == nil {
+		ex.siteTime = map[string]time.Duration{}
+	}
+	ex.siteTime[key] += d
 }
 
 func choiceKey(ch map[string]int) string {
@@ -253,9 +281,12 @@ func (ex *Explorer) run(nWorkers int) {
 				ex.active++
 				ex.mu.Unlock()
 
-				if atomic.AddInt64(&ex.paths, 1) > ex.maxPaths {
+				if over := !ex.deadline.IsZero() && time.Now().After(ex.deadline); atomic.AddInt64(&ex.paths, 1) > ex.maxPaths || over {
 					ex.mu.Lock()
 					ex.aborted = true
+					if over {
+						ex.timedOut = true
+					}
 					ex.active--
 					ex.stack = nil
 					ex.mu.Unlock()
@@ -344,6 +375,8 @@ func (p *Path) execute() (leaf *Leaf) {
 		leaf.Shadow = p.shadow
 		leaf.WDefs = p.wdefs
 		leaf.DetObs = p.detObs
+		leaf.Trail = p.trail
+		leaf.TrailAmb = p.trailAmb
 	}()
 	p.runInit()
 	p.callFunction(p.ex.harness, nil, nil)
@@ -502,6 +535,7 @@ func (p *Path) feasibleWith(t *Term) bool {
 
 // decide records/replays a decision among n options.
 func (p *Path) decide(n int, label string, feas func(i int) bool) int {
+	p.trailAmb = append(p.trailAmb, label == "map-order" || label == "append-capacity")
 	if p.cursor < len(p.prefix) {
 		ch := p.prefix[p.cursor]
 		p.cursor++
@@ -725,8 +759,12 @@ func (p *Path) assertObligKnown(cond *Term, label string, known *Term, finding s
 		}
 		// one search per distinct vector of harness choices, at most 6 per assertion
 		ckey := bkey + "#" + choiceKey(p.choices)
-		if p.ex.siteBudgetN(ckey, 3) && p.ex.siteBudgetN(bkey, 9) {
+		// two searches per distinct vector of harness choices, at most 24 per assertion, and at most
+		// ~4 minutes (12 in the thorough tier) of search time per assertion
+		if p.ex.siteBudgetN(ckey, 2) && p.ex.siteTimeLeft(bkey) && p.ex.siteBudgetN(bkey, 24) {
+			t0 := time.Now()
 			p.refineAndRecord(ob, neg)
+			p.ex.siteTimeAdd(bkey, time.Since(t0))
 		} else {
 			ob.Status = "violated-unrefined"
 			ob.Choices = map[string]int{}
@@ -1037,6 +1075,9 @@ func solveByComponents(ss *SolverSet, asserts []*Term, allVars []*Term, to int, 
 	return out
 }
 
+// sampleSeed perturbs the pseudo-random sampling (VERIF_SEED; 1 by default)
+var sampleSeed uint64 = 1
+
 var sampleStrings = []string{"a", "b", "c", "d", "x", "y", "p", "q", "", "\n", "a\nb", "\"", "`", "\\", "a/d", "b/d", "c/d", "/d", "/go", " ", "1", "a1", "a\r\nb", "math/rand/v2", "//", "/*", "*/", "\xff", "\x00"}
 var identStrings = []string{"a", "b", "c", "d", "x", "y", "p", "q", "a1", "k", "v", "m"}
 
@@ -1111,7 +1152,7 @@ func sampleModel(base []*Term, shadow []*Term, wdefs map[*Term]*Term, nts []*Ter
 		}
 		base = append(kept, shadow...)
 	}
-	h := uint64(1469598103934665603)
+	h := uint64(1469598103934665603) ^ (sampleSeed * 0x9e3779b97f4a7c15)
 	for _, t := range nts {
 		h = (h ^ uint64(t.id)) * 1099511628211
 	}
@@ -1155,8 +1196,10 @@ func sampleModel(base []*Term, shadow []*Term, wdefs map[*Term]*Term, nts []*Ter
 		}
 	}
 	if prod > 0 && len(nts) > 0 {
-		for idx := 0; idx < prod; idx++ {
-			if idx%64 == 63 && (time.Now().After(deadline) || time.Since(t0) > 8*time.Second) {
+		start := int(((sampleSeed - 1) * 7919) % uint64(prod))
+		for i := 0; i < prod; i++ {
+			idx := (i + start) % prod
+			if i%64 == 63 && (time.Now().After(deadline) || time.Since(t0) > 8*time.Second) {
 				break
 			}
 			env := newEvalEnv()
